@@ -224,7 +224,7 @@ Proof.
   unfold conrec_asserts, enc_cons in Hf. rewrite Ho, cemit_false in Hf.
   assert (Hcl := cons_clause c). assert (Hrl := rule_clause c).
   destruct (c_expr c) as [t v|t v s|t v|t v s|tb ta off pk|a b|a b|a b|ts|ts w l|ts w l pk|t b|t cd|a b|ts n pk|ts n ivs pk|g|cs n pk|x|xs|xs|x y|cd xs|cd xs ys|r ivs pk|r ivs|r ivs p s o en|r ivs|r ivs p s o en|r|r d ivs m|s1 s2|s1 s2|t b q|t b q|i v|i lo hi];
-    try discriminate Hk; cbn [enc_raw enc_direct app] in Hf; cbn [cons_tasks] in Htasks; cbn [spec_C03_P spec_C06_P] in Hcl, Hrl.
+    try discriminate Hk; cbn [enc_raw app] in Hf; cbn [cons_tasks] in Htasks; cbn [spec_C03_P spec_C06_P] in Hcl, Hrl.
   - (* start at *) destruct Hf as [<-|[]]. assert (Ht : In t (ps_tasks st)) by (apply Htasks; now left).
     apply guard1_park; auto. intros Ha. pose proof (whenact_elim _ _ (Hcl _ _ Hc Hfl Ho (or_introl eq_refl)) Ha) as H.
     destruct (vals_acting t Ht Ha) as (Hs & _). cbn in H. rewrite feval_eq. cbn [teval S_]. rewrite Hs. cbn. lia.
